@@ -381,7 +381,7 @@ def specials():
         desc = struct.unpack(">Q", m[l2o + 8:l2o + 16])[0]
         coff = desc & ((1 << 61) - 1)
         co = zlib.compressobj(9, zlib.DEFLATED, -12)
-        bomb = co.compress(bytes(64 << 20)) + co.flush()
+        bomb = co.compress(bytes(256 << 20)) + co.flush()
         m = m.ljust(len(m) + len(bomb) + 1024, b"\0")
         where = len(b) + 7
         m[where:where + len(bomb)] = bomb
@@ -391,7 +391,7 @@ def specials():
         blob = bytes(m)
         del m, bomb
         return lambda: read_qcow2(blob)
-    out.append(("qcow2", "inflate-bomb-64MiB-in-512B-cluster", qcow2_bomb, 100, 768))
+    out.append(("qcow2", "inflate-bomb-256MiB-in-512B-cluster", qcow2_bomb, 300, 768))
 
     def gz_vmtar_bomb(work):
         from dissect.hypervisor.util import vmtar
@@ -440,6 +440,64 @@ def specials():
         text = enc_vmdk.descriptor_text(['RW 99999999999999999999999999999999 SPARSE "x.vmdk"', 'RW 1 FLAT "' + "y" * 100000 + '" 0'])
         return lambda: DiskDescriptor.parse(text)
     out.append(("vmdk-descriptor", "huge-numbers-and-names", vmdk_descriptor_numbers, 100, 1))
+
+    # text inputs cut at every character position / with every single delimiter removed: each parse must return or raise
+    def text_cuts(text, parse, delims):
+        def run(work):
+            variants = [text[:k] for k in range(len(text) + 1)]
+            for k, ch in enumerate(text):
+                if ch in delims:
+                    variants.append(text[:k] + text[k + 1:])
+                    variants.append(text[:k] + ch + text[k:])
+
+            def go():
+                for v in variants:
+                    try:
+                        parse(v)
+                    except Exception:  # noqa: BLE001
+                        pass
+            return go
+        return run
+
+    long1 = "win 10 data disk (copy of copy) - backup 2021-03-04 final v2-s001.vmdk"
+    long2 = 'the "second" extent of a rather long-winded virtual machine disk name-s002.vmdk'
+    dtext = enc_vmdk.descriptor_text([f'RW 4192256 SPARSE "{long1}"', f'RW 4192256 SPARSE "{long2}"', 'RW 2048 FLAT "a-flat.vmdk" 0'],
+                                     ddb={"ddb.adapterType": "lsilogic", "ddb.comment": "a comment with spaces and = signs " * 3})
+
+    def parse_desc(v):
+        from dissect.hypervisor.disk.vmdk import DiskDescriptor
+        str(DiskDescriptor.parse(v))
+    out.append(("vmdk-descriptor", "descriptor-cut-at-every-character", text_cuts(dtext, parse_desc, '"=#'), len(dtext) * len(dtext) // 2048 + 1, 1))
+
+    vtext = enc_vmx.vmx_text({".encoding": "UTF-8", "displayName": "vm " * 20}, enc_vmx.keysafe([enc_vmx.pair_text("p", bytes(32), rounds=1)] * 2), b"\0" * 64)
+
+    def parse_vmx(v):
+        from dissect.hypervisor.descriptor.vmx import VMX
+        x = VMX.parse(v)
+        x.disks()
+        if x.encrypted:
+            x.unlock_with_phrase("p")
+    out.append(("vmx", "encrypted-vmx-cut-at-every-character", text_cuts(vtext, parse_vmx, '"=/(),:%'), len(vtext) * len(vtext) // 2048 + 1, 1))
+
+    def xml_special(name, cls_path, doc, use):
+        def parse(v):
+            import importlib
+            mod, cls = cls_path.rsplit(".", 1)
+            obj = getattr(importlib.import_module(mod), cls)(io.StringIO(v))
+            use(obj)
+        out.append((name, "document-cut-at-every-character", text_cuts(doc, parse, '<>"/&;'), len(doc) * len(doc) // 2048 + 1, 1))
+
+    ovf = ('<?xml version="1.0"?><Envelope xmlns="http://schemas.dmtf.org/ovf/envelope/1" xmlns:ovf="http://schemas.dmtf.org/ovf/envelope/1" '
+           'xmlns:rasd="http://schemas.dmtf.org/wbem/wscim/1/cim-schema/2/CIM_ResourceAllocationSettingData"><References><File ovf:href="d.vmdk" ovf:id="file1"/>'
+           '</References><DiskSection><Disk ovf:diskId="d1" ovf:fileRef="file1"/></DiskSection><VirtualSystem ovf:id="vm"><VirtualHardwareSection><Item>'
+           '<rasd:HostResource>ovf:/disk/d1</rasd:HostResource><rasd:ResourceType>17</rasd:ResourceType></Item></VirtualHardwareSection></VirtualSystem></Envelope>')
+    xml_special("ovf", "dissect.hypervisor.descriptor.ovf.OVF", ovf, lambda o: list(o.disks()))
+    vbox = ('<?xml version="1.0"?><VirtualBox xmlns="http://www.virtualbox.org/"><Machine name="vm"><MediaRegistry><HardDisks><HardDisk uuid="{1}" '
+            'location="a.vdi" format="VDI" type="Normal"><HardDisk uuid="{2}" location="b.vdi" format="VDI" type="Normal"/></HardDisk></HardDisks></MediaRegistry></Machine></VirtualBox>')
+    xml_special("vbox", "dissect.hypervisor.descriptor.vbox.VBox", vbox, lambda o: list(o.disks()))
+    pvs = ('<?xml version="1.0"?><ParallelsVirtualMachine><Hardware><Hdd id="0"><SystemName>h.hdd</SystemName></Hdd><CdRom id="1"><SystemName>c.iso</SystemName>'
+           '</CdRom></Hardware></ParallelsVirtualMachine>')
+    xml_special("pvs", "dissect.hypervisor.descriptor.pvs.PVS", pvs, lambda o: list(o.disks()))
     return out
 
 
